@@ -18,12 +18,29 @@ def pointwise(fn):
     return wrapper
 
 
+class _Serial:
+    """deterministic identity hash: entities are numbered in the order they are first hashed, so that
+    sets/dicts of entities iterate in the same order in every re-execution of a symbolic run"""
+
+    def __init__(self):
+        self.n = 0
+
+    def hash_of(self, obj):
+        h = obj.__dict__.get("_fv_serial")
+        if h is None:
+            self.n += 1
+            h = obj.__dict__["_fv_serial"] = self.n
+        return h
+
+
 def helper_patches():
     """pure string helpers of ford.utils (also where sourceform imported them by name)"""
     import ford.sourceform as sf
     import ford.utils as fu
 
     out = {}
+    serial = _Serial()
+    out[(sf.FortranBase, "__hash__")] = lambda self: serial.hash_of(self)
     for name in ("strip_paren", "paren_split", "get_parens", "quote_split"):
         w = pointwise(getattr(fu, name))
         out[(fu, name)] = w
@@ -67,6 +84,7 @@ def parse(lines, **settings):
     try:
         extra = {(sf, "FortranReader"): (lambda *a, **k: FakeReader(lines))}
         extra.update(helper_patches())
+        extra[(sf, "namelist")] = sf.NameSelector()  # module-level singleton: fresh per symbolic run
         with patch.patched(sf, fu, extra=extra):
             buf = io.StringIO()
             with contextlib.redirect_stdout(buf):
@@ -118,6 +136,7 @@ def project(files, correlate=True, **settings):
                 f.write("! symbolic program\n")
         extra = {(sf, "FortranReader"): (lambda path, *a, **k: FakeReader(files[os.path.basename(path)]))}
         extra.update(helper_patches())
+        extra[(sf, "namelist")] = sf.NameSelector()  # module-level singleton: fresh per symbolic run
         # the directory enumeration order is not a function of the input: fix it (sorted) so that every
         # re-execution of the symbolic run visits the files in the same order
         real_find = fp.find_all_files
